@@ -34,7 +34,7 @@ for _shape, _order in SHAPES.items():
     _exp0 = expected(_shape, 'self.logical_files[0]') + ['multi_frame_data_objects[0][0]', 'multi_frame_data_objects[0][1]']
     _exp1 = expected(_shape, 'self.logical_files[1]') + ['multi_frame_data_objects[1][0]']
     CONTRACTS[f'DLISFile.generator[{_shape}]'] = dict(
-        target='DLISFile.generator', props=['C09', 'C07', 'C18'],
+        target='DLISFile.generator', props=['C09', 'C07', 'C18', 'C03'],
         self_fields={'logical_files': {'cls': None, 'list': [_lf, _lf]}},
         params={'multi_frame_data_objects': 'items[list[opq:mfd]*2,list[opq:mfd]*1]'}, returns='none',
         ensures=[('per-logical-file-header-origin-sets-other-sets-noformat-frame-data-in-creation-order',
@@ -167,7 +167,7 @@ import contracts.c_writer as _cw
 _cw.CONTRACTS['DLISWriter.__init__']['modifies'] = ['self.' + f for f in DW_FIELDS]
 SULM = {'cls': 'StorageUnitLabel', 'fields': SUL_FIELDS}
 CONTRACTS['DLISFile.write'] = dict(
-    props=['C01', 'C10', 'C15'],
+    props=['C01', 'C10', 'C15', 'C12'],
     self_fields={'_sul': SULM, 'logical_files': {'list': [{'cls': 'LogicalFile', 'fields': {}}]}},
     params={'dlis_file_name': 'opq:path', 'input_chunk_size': 'int?', 'output_chunk_size': 'int?', 'data': 'none', 'from_idx': 'int', 'to_idx': 'int?'},
     returns='none', ghost={'disk': ('bytes', 'fresh_bytes()'), 'stream': ('bytes', "b''"), 'nvr': ('int', '0')},
